@@ -84,7 +84,7 @@ pub struct ReqSpec {
 }
 
 /// The request for (seed, nonce): a pure function, so the oracle can regenerate it.
-pub fn gen_request(seed: u64, nonce: u64, tier: Tier, big_ok: bool) -> ReqSpec {
+pub fn gen_request(seed: u64, nonce: u64, tier: Tier, big_ok: bool, routed: bool) -> ReqSpec {
     let mut r = Choice::new(seed).stream(&format!("req:{nonce}"));
     let route = match r.gen_range(0..6) {
         0 => "/".to_string(),
@@ -93,6 +93,22 @@ pub fn gen_request(seed: u64, nonce: u64, tier: Tier, big_ok: bool) -> ReqSpec {
         3 => rand_string(&mut r, 12),
         4 => format!("/{}", rand_string(&mut r, 40)),
         _ => "x".repeat(r.gen_range(100..2000)),
+    };
+    // callee behind a Router (routes /svc/Method, /r/:a, /w/*rest): mostly routes that match,
+    // plus near misses that must be answered NotFound without reaching any handler
+    let route = if routed {
+        let seg = |r: &mut rand::rngs::StdRng| -> String { (0..r.gen_range(1..10)).map(|_| (b'a' + r.gen_range(0..26)) as char).collect() };
+        match r.gen_range(0..10) {
+            0 | 1 => "/svc/Method".to_string(),
+            2 | 3 => format!("/r/{}", seg(&mut r)),
+            4 | 5 => format!("/w/{}/{}", seg(&mut r), seg(&mut r)),
+            6 => "/svc/Method/".to_string(),
+            7 => format!("/r/{}/", seg(&mut r)),
+            8 => ["/svc/method", "/svc", "/nope", "//svc/Method", "/svc/Method/x"][r.gen_range(0..5)].to_string(),
+            _ => route,
+        }
+    } else {
+        route
     };
     let mut headers = BTreeMap::new();
     let n = if r.gen_bool(0.3) { 0 } else { r.gen_range(0..=8) };
@@ -117,6 +133,20 @@ pub fn gen_request(seed: u64, nonce: u64, tier: Tier, big_ok: bool) -> ReqSpec {
         headers,
         body: body_for(seed, nonce, len, 0xAA),
     }
+}
+
+/// Reference for the routes mounted in routed runs.
+pub fn route_matches(route: &str) -> bool {
+    if route == "/svc/Method" {
+        return true;
+    }
+    if let Some(rest) = route.strip_prefix("/r/") {
+        return !rest.is_empty() && !rest.contains('/');
+    }
+    if let Some(rest) = route.strip_prefix("/w/") {
+        return !rest.is_empty();
+    }
+    false
 }
 
 pub struct RespSpec {
@@ -225,12 +255,22 @@ fn run(input: RunInput) -> ScenFuture {
             q.send_window = Some(w.param("send_window", 8_000, 400_000) as u64);
         }
 
+        // the callee's service mounted behind anemo's Router: the handler still gets exactly the
+        // route the caller sent, and a route that matches nothing reaches no handler
+        let routed = w.flag("callee_behind_router", 0.3);
         let mut nodes = Vec::new();
         let mut handles = Vec::new();
         for i in 0..n_nodes {
             let svc = Svc::new(&w, plan_for(w.seed, tier, big_ok));
             handles.push(svc.handle());
-            nodes.push(Arc::new(w.start_node(w.spec(i as u8 + 1, cfg.clone()), svc).unwrap()));
+            let spec = w.spec(i as u8 + 1, cfg.clone());
+            let node = if routed {
+                let router = anemo::Router::new().route("/svc/Method", svc.clone()).route("/r/:a", svc.clone()).route("/w/*rest", svc);
+                w.start_node(spec, router)
+            } else {
+                w.start_node(spec, svc)
+            };
+            nodes.push(Arc::new(node.unwrap()));
             watch_events(&w, nodes.last().unwrap());
         }
         // establish a full mesh before faults start (connection establishment is C03/C05/C09's subject)
@@ -329,7 +369,8 @@ fn run(input: RunInput) -> ScenFuture {
             let (w2, outcomes, nodes2) = (w.clone(), outcomes.clone(), nodes.clone());
             tasks.push(tokio::spawn(async move {
                 sleep_ms(start_ms).await;
-                let spec = gen_request(w2.seed, nonce, w2.tier, big_ok);
+                let spec = gen_request(w2.seed, nonce, w2.tier, big_ok, routed);
+                let unrouted = routed && !route_matches(&spec.route);
                 let req = build_request(&spec);
                 let me = &nodes2[caller];
                 let target = &nodes2[callee];
@@ -348,6 +389,13 @@ fn run(input: RunInput) -> ScenFuture {
                 };
                 let expect = gen_response(w2.seed, nonce, w2.tier, big_ok);
                 let result = match res {
+                    Ok(resp) if unrouted => {
+                        if resp.status() != StatusCode::NotFound {
+                            w2.violate("unrouted-request-answered-by-a-handler", "rpc", format!("nonce {nonce}: route {:?} matches no mounted route but the response has status {:?}", spec.route, resp.status()));
+                        }
+                        w2.probe("unrouted-request");
+                        Ok(())
+                    }
                     Ok(resp) => {
                         let hdrs: BTreeMap<String, String> = resp.headers().iter().map(|(k, v)| (k.clone(), v.clone())).collect();
                         if resp.status() != expect.status {
@@ -424,7 +472,10 @@ fn run(input: RunInput) -> ScenFuture {
             for s in h.seen() {
                 let Some(nonce) = s.nonce else { continue };
                 *delivered.entry(nonce).or_default() += 1;
-                let spec = gen_request(w.seed, nonce, tier, big_ok);
+                let spec = gen_request(w.seed, nonce, tier, big_ok, routed);
+                if routed && !route_matches(&spec.route) {
+                    w.violate("unrouted-request-reached-a-handler", "handler", format!("nonce {nonce}: sent route {:?} matches no mounted route, yet a handler ran for it (with route {:?})", spec.route, s.route));
+                }
                 let Some(o) = outcomes.iter().find(|o| o.nonce == nonce) else {
                     // still pending (only after an rpc-hang verdict)
                     continue;
@@ -456,7 +507,7 @@ fn run(input: RunInput) -> ScenFuture {
         }
         let ok = outcomes.iter().filter(|o| o.result.is_ok()).count();
         for o in &outcomes {
-            if o.result.is_ok() && !delivered.contains_key(&o.nonce) {
+            if o.result.is_ok() && !delivered.contains_key(&o.nonce) && !(routed && !route_matches(&gen_request(w.seed, o.nonce, tier, big_ok, routed).route)) {
                 w.violate("response-without-handler", "rpc", format!("nonce {} succeeded but no handler ever saw it", o.nonce));
             }
         }
@@ -464,7 +515,7 @@ fn run(input: RunInput) -> ScenFuture {
             for o in &outcomes {
                 // with a frame limit, an RPC with an oversized frame fails by design (C15)
                 if let (Some(l), Err(_)) = (frame_limit, &o.result) {
-                    let rq = gen_request(w.seed, o.nonce, tier, big_ok);
+                    let rq = gen_request(w.seed, o.nonce, tier, big_ok, routed);
                     let rs = gen_response(w.seed, o.nonce, tier, big_ok);
                     let hq: Vec<(String, String)> = rq.headers.iter().map(|(k, v)| (k.clone(), v.clone())).collect();
                     let hs: Vec<(String, String)> = rs.headers.iter().map(|(k, v)| (k.clone(), v.clone())).collect();
